@@ -255,6 +255,18 @@ fn find_related_text() {
         got.sort(); want.sort();
         if got != want { println!("WITNESS {{\"clause\":\"next_textselection/equals\",\"reference_set\":\"{:?}\",\"search_returns\":\"{:?}\",\"want\":\"{:?}\"}}", members, got, want); return; }
     }}}
+    // the same from a store whose selections were created in every order (the lookup walks a list in creation order)
+    let trio = [(2usize, 9usize), (2, 5), (2, 7)];
+    for perm in [[0usize, 1, 2], [0, 2, 1], [1, 0, 2], [1, 2, 0], [2, 0, 1], [2, 1, 0]] {
+        let mut store2 = store_with_text();
+        for i in perm { store2.annotate(AnnotationBuilder::new().with_target(SelectorBuilder::textselector("r", Offset::simple(trio[i].0, trio[i].1)))).unwrap(); }
+        let resource2 = store2.resource("r").unwrap();
+        for (b, e) in trio.iter().chain([(2usize, 6usize), (2, 8)].iter()) {
+            let got: Vec<(usize, usize)> = resource2.textselection(&Offset::simple(*b, *e)).unwrap().related_text(eq).map(|t| (t.begin(), t.end())).collect();
+            let want: Vec<(usize, usize)> = if trio.contains(&(*b, *e)) { vec![(*b, *e)] } else { vec![] };
+            if got != want { println!("WITNESS {{\"clause\":\"known_textselection\",\"created_in_order\":\"{:?}\",\"reference\":[{},{}],\"search_returns\":\"{:?}\",\"want\":\"{:?}\"}}", perm.iter().map(|i| trio[*i]).collect::<Vec<_>>(), b, e, got, want); return; }
+        }
+    }
     println!("NO-WITNESS find_related_text");
 }
 
@@ -844,6 +856,18 @@ fn find_text_ops() {
                     Some(s) => s.find_text_regex(&exprs, None, true).unwrap().flat_map(|m| m.textselections().iter().map(|t| (t.begin(), t.end())).collect::<Vec<_>>()).collect() } }));
                 if got.as_ref().ok() != Some(&want) { println!("WITNESS {{\"clause\":\"find_text_regex\",\"text\":{:?},\"range\":\"{}..{}\",\"pattern\":{:?},\"got\":\"{:?}\",\"want\":\"{:?}\"}}", text, b, e, needle, got.ok(), want); return; }
             }
+            // find_text_sequence: the fragments in order, from the beginning of the searched text, only skippable characters (spaces) in between
+            for frags in [vec!["a", "b"], vec!["b", "c"], vec!["a", "b", "c"], vec!["b", "b"], vec!["€", "𝄞"], vec!["a"], vec!["x", "X"], vec!["a", "b", "a", "b"], vec!["a", "b", "c", "d"], vec!["x", "X", "x"]] {
+                let mut pos = 0usize; let mut want: Option<Vec<(usize, usize)>> = Some(vec![]);
+                for f in frags.iter() {
+                    match sub[pos..].find(f) {
+                        Some(i) if sub[pos..pos + i].chars().all(|c| c == ' ') => { want.as_mut().unwrap().push((charpos(pos + i), charpos(pos + i + f.len()))); pos = pos + i + f.len(); }
+                        _ => { want = None; break; }
+                    }
+                }
+                let got = std::panic::catch_unwind(std::panic::AssertUnwindSafe(|| match &sel { None => res.find_text_sequence(&frags, |c| c == ' ', true), Some(s) => s.find_text_sequence(&frags, |c| c == ' ', true) }.map(|v| v.iter().map(|t| (t.begin(), t.end())).collect::<Vec<_>>())));
+                if got.as_ref().ok() != Some(&want) { println!("WITNESS {{\"clause\":\"find_text_sequence\",\"text\":{:?},\"range\":\"{}..{}\",\"fragments\":\"{:?}\",\"got\":\"{:?}\",\"want\":\"{:?}\"}}", text, b, e, frags, got.ok(), want); return; }
+            }
             // trim_text
             for set in [vec![' '], vec!['a', ' '], vec!['é', 'x', 'X']] {
                 let trimmed = sub.trim_matches(|c| set.contains(&c));
@@ -854,6 +878,18 @@ fn find_text_ops() {
                 if !ok { println!("WITNESS {{\"clause\":\"trim_text\",\"text\":{:?},\"range\":\"{}..{}\",\"chars\":\"{:?}\",\"got\":\"{:?}\",\"want\":\"{:?}\"}}", text, b, e, set, got, want); return; }
             }
         }}
+    }
+    // AnnotationStore::find_text: every resource is searched from its beginning, in the order of the resources
+    for order in [[0usize, 1, 2], [2, 1, 0], [1, 2, 0]] {
+        let rtexts = ["To be or not to be", "so be it", "b"];
+        let mut store = AnnotationStore::default();
+        for i in order { store.add_resource(TextResourceBuilder::new().with_id(format!("r{}", i)).with_text(rtexts[i])).unwrap(); }
+        for needle in ["be", "b", "it", "o"] {
+            let mut want: Vec<(String, usize, usize)> = vec![];
+            for i in order { for (p, m) in rtexts[i].match_indices(needle) { want.push((format!("r{}", i), p, p + m.len())); } }
+            let got: Vec<(String, usize, usize)> = store.find_text(needle).map(|t| (t.resource().id().unwrap().to_string(), t.begin(), t.end())).collect();
+            if got != want { println!("WITNESS {{\"clause\":\"AnnotationStore::find_text\",\"resources\":\"{:?}\",\"needle\":{:?},\"got\":\"{:?}\",\"want\":\"{:?}\"}}", order.iter().map(|i| rtexts[*i]).collect::<Vec<_>>(), needle, got, want); return; }
+        }
     }
     println!("NO-WITNESS find_text_ops");
 }
@@ -929,7 +965,7 @@ fn find_data_search() {
         DataValue::Float(0.5), DataValue::Float(5.0), DataValue::String("5".into()), DataValue::String("x".into()), DataValue::String("true".into()), DataValue::String("".into()), DataValue::String("5.0".into())] };
     let mk_ops = || -> Vec<(&'static str, DataOperator<'static>)> { vec![
         ("Any", DataOperator::Any), ("Null", DataOperator::Null), ("True", DataOperator::True), ("False", DataOperator::False),
-        ("Equals 5", DataOperator::Equals("5".into())), ("Equals x", DataOperator::Equals("x".into())), ("Equals true", DataOperator::Equals("true".into())), ("Equals 5.0", DataOperator::Equals("5.0".into())),
+        ("Equals 5", DataOperator::Equals("5".into())), ("Equals x", DataOperator::Equals("x".into())), ("Equals true", DataOperator::Equals("true".into())), ("Equals 5.0", DataOperator::Equals("5.0".into())), ("Equals on", DataOperator::Equals("on".into())), ("Equals YES", DataOperator::Equals("YES".into())), ("Equals off", DataOperator::Equals("off".into())),
         ("EqualsInt 5", DataOperator::EqualsInt(5)), ("GreaterThan 0", DataOperator::GreaterThan(0)), ("GreaterThanOrEqual 5", DataOperator::GreaterThanOrEqual(5)), ("LessThan 5", DataOperator::LessThan(5)), ("LessThanOrEqual 0", DataOperator::LessThanOrEqual(0)),
         ("EqualsFloat 5.0", DataOperator::EqualsFloat(5.0)), ("GreaterThanFloat 0.4", DataOperator::GreaterThanFloat(0.4)), ("LessThanFloat 5.0", DataOperator::LessThanFloat(5.0)),
         ("Not EqualsInt 5", DataOperator::Not(Box::new(DataOperator::EqualsInt(5)))),
@@ -948,7 +984,7 @@ fn find_data_search() {
             _ => false };
         match name {
             "Any" => true, "Null" => matches!(v, DataValue::Null), "True" => matches!(v, DataValue::Bool(true)), "False" => matches!(v, DataValue::Bool(false)),
-            "Equals 5" => eq_str(v, "5"), "Equals x" => eq_str(v, "x"), "Equals true" => eq_str(v, "true"), "Equals 5.0" => eq_str(v, "5.0"),
+            "Equals 5" => eq_str(v, "5"), "Equals x" => eq_str(v, "x"), "Equals true" => eq_str(v, "true"), "Equals 5.0" => eq_str(v, "5.0"), "Equals on" => eq_str(v, "on"), "Equals YES" => eq_str(v, "YES"), "Equals off" => eq_str(v, "off"),
             "EqualsInt 5" => int(v) == Some(5), "GreaterThan 0" => int(v).map(|n| n > 0).unwrap_or(false), "GreaterThanOrEqual 5" => int(v).map(|n| n >= 5).unwrap_or(false),
             "LessThan 5" => int(v).map(|n| n < 5).unwrap_or(false), "LessThanOrEqual 0" => int(v).map(|n| n <= 0).unwrap_or(false),
             "EqualsFloat 5.0" => flt(v) == Some(5.0), "GreaterThanFloat 0.4" => flt(v).map(|n| n > 0.4).unwrap_or(false), "LessThanFloat 5.0" => flt(v).map(|n| n < 5.0).unwrap_or(false),
@@ -961,6 +997,13 @@ fn find_data_search() {
     {
         let ds: &mut AnnotationDataSet = store.get_mut("d").unwrap();
         for key in ["k0", "k1"] { for v in mk_values() { ds.insert_data(BuildItem::None, key, v, true).unwrap(); } }
+        // the vocabulary is deduplicated by exact value: the 13 values are pairwise different (5, 5.0, "5" and "5.0" are four values),
+        // and adding each once more without an id reuses the item
+        let n = mk_values().len();
+        if ds.data().count() != 2 * n { println!("WITNESS {{\"clause\":\"insert_data deduplicates by exact value\",\"values\":{},\"keys\":2,\"data_items\":{}}}", n, ds.data().count()); return; }
+        for key in ["k0", "k1"] { for v in mk_values() { let before = ds.data().count(); let h = ds.insert_data(BuildItem::None, key, v.clone(), true).unwrap();
+            let item: &AnnotationData = ds.get(h).unwrap();
+            if ds.data().count() != before || item.value() != &v { println!("WITNESS {{\"clause\":\"insert_data deduplicates by exact value\",\"key\":{:?},\"value\":\"{:?}\",\"returned_item_has\":\"{:?}\",\"items_before\":{},\"items_after\":{}}}", key, v, item.value(), before, ds.data().count()); return; } } }
     }
     let values = mk_values();
     for (name, op) in mk_ops() {
@@ -1149,6 +1192,17 @@ fn find_load_untrusted() {
     add("temporary id that overflows", ann("!A18446744073709551616", &ok_target(), d1));
     add("non-ASCII temporary id", ann("!É1", &ok_target(), d1));
     add("reference by temporary id to a gap", format!("{}, {}", ann("!A2", &ok_target(), d1), ann("X", r#"{"@type": "AnnotationSelector", "annotation": "!A0"}"#, d1)));
+    // datasets whose data list carries temporary ids (the visitor sizes and fills the data vector from them), also in a duplicated field
+    let dsdoc = |data_fields: &str| -> String { format!(r#"{{ "@type": "AnnotationStore",
+        "annotationsets": [{{ "@type": "AnnotationDataSet", "@id": "d", "keys": [{{"@type": "DataKey", "@id": "k"}}], {} }}],
+        "resources": [{{ "@id": "r", "text": "Hello world" }}],
+        "annotations": [{}] }}"#, data_fields, ann("A1", &ok_target(), d1)) };
+    let item = |id: &str, v: &str| format!(r#"{{"@type": "AnnotationData", "@id": "{}", "key": "k", "value": {{"@type": "String", "value": "{}"}}}}"#, id, v);
+    docs.push(("data with temporary ids in order".to_string(), dsdoc(&format!(r#""data": [{}, {}, {}]"#, item("!D0", "a"), item("D1", "v"), item("!D2", "c")))));
+    docs.push(("data with a temporary id leaving a gap".to_string(), dsdoc(&format!(r#""data": [{}, {}]"#, item("D1", "v"), item("!D4", "c")))));
+    docs.push(("data with a temporary id below the current length".to_string(), dsdoc(&format!(r#""data": [{}, {}, {}]"#, item("D1", "v"), item("D2", "w"), item("!D0", "c")))));
+    docs.push(("data field twice, second list with a temporary id below the current length".to_string(), dsdoc(&format!(r#""data": [{}, {}], "data": [{}]"#, item("D1", "v"), item("D2", "w"), item("!D0", "c")))));
+    docs.push(("data with the same temporary id twice".to_string(), dsdoc(&format!(r#""data": [{}, {}, {}]"#, item("D1", "v"), item("!D1", "w"), item("!D1", "c")))));
     for (name, json) in &docs {
         let r = std::panic::catch_unwind(|| {
             match AnnotationStore::from_json_str(json, Config::default()) {
@@ -1156,6 +1210,8 @@ fn find_load_untrusted() {
                 Ok(store) => {
                     // what loaded must be consistent and readable
                     if let Some(e) = store_inconsistency(&store) { return Some(format!("loaded but inconsistent: {}", e)); }
+                    // an identifier that resolves names the item that was loaded under it
+                    if let Some(d) = store.annotationdata("d", "D1") { if d.value().to_string() != "v" { return Some(format!("data id D1 resolves to the item with value {:?}", d.value().to_string())); } }
                     for a in store.annotations() { let _ = a.text().collect::<Vec<_>>(); let _ = a.textselections().count(); for d in a.data() { let _ = d.value(); } let _ = a.annotations_in_targets(AnnotationDepth::Max).count(); }
                     None
                 }
